@@ -200,6 +200,9 @@ fn gen_history<T: Val>(rng: &mut Rng, max_ops: usize) -> Vec<Op<T>> {
     let mut sizes: HashMap<usize, usize> = HashMap::new();
     sizes.insert(0, 0);
     let mut script: Vec<u8> = vec![];
+    // values known to be in each set, so that lookups hit about as often as they miss
+    let mut known: HashMap<usize, Vec<T>> = HashMap::new();
+    known.insert(0, vec![]);
     while ops.len() < n {
         if live.is_empty() {
             ops.push(Op::New);
@@ -209,7 +212,14 @@ fn gen_history<T: Val>(rng: &mut Rng, max_ops: usize) -> Vec<Op<T>> {
             continue;
         }
         let h = *rng.pick(&live);
-        let v = pool[rng.below(small_pool as u64) as usize].clone();
+        let mut v = pool[rng.below(small_pool as u64) as usize].clone();
+        if let Some(kn) = known.get(&h) {
+            if !kn.is_empty() && rng.chance(2, 5) {
+                v = rng.pick(kn).clone();
+            }
+        }
+        // bookkeeping of `known` from the ops emitted in the previous iteration
+        let before = ops.len();
         // forced scenario: clone h; drop or clear h; then use the clone
         if script.is_empty() && rng.chance(1, 14) && live.len() < 5 {
             script = vec![1, if rng.chance(1, 2) { 2 } else { 3 }, 4, 5, 6, 7];
@@ -306,6 +316,22 @@ fn gen_history<T: Val>(rng: &mut Rng, max_ops: usize) -> Vec<Op<T>> {
                     sizes.insert(total, 0);
                     total += 1;
                 }
+            }
+        }
+        for op in &ops[before..] {
+            match op {
+                Op::New => {
+                    known.insert(total - 1, vec![]);
+                }
+                Op::Ins(g, x) => known.entry(*g).or_default().push(x.clone()),
+                Op::Clear(g) => {
+                    known.insert(*g, vec![]);
+                }
+                Op::Clone(g) => {
+                    let c = known.get(g).cloned().unwrap_or_default();
+                    known.insert(total - 1, c);
+                }
+                _ => {}
             }
         }
     }
